@@ -1680,6 +1680,11 @@ class AllConnGraph(nx.DiGraph):
                             f"connected to '{names[1]}'.", ident=(src, tgt))
                         return
 
+        src_indices = kwargs.get('src_indices')
+        if src_indices is not None:
+            # the indexer may still hold the source shape of an earlier setup
+            src_indices.set_src_shape(None)
+
         self.add_edge(src, tgt, **kwargs)
 
     def node_name(self, pathname, name, io):
